@@ -24,7 +24,7 @@ LEVEL_TEXT = ("Random programs over 2-5 seeded screen objects (both infinite var
               "unrelated library calls (incl. optimal_grouping, which consumes NumPy's global generator), reseeding and draws from the global "
               "generators, and further instances with the same seed. Each object's outputs must be bit-identical to its own sequence run "
               "alone in a fresh interpreter, seeded calls must leave the global generators untouched, different seeds / unseeded calls must "
-              "differ. Thorough adds threads owning their own instances under a 1 us switch interval. Exploration over interleavings.")
+              "differ (also after the global generators were put in the same state, across sibling processes forked after import, and for seeds congruent modulo 2^32). Thorough adds threads owning their own instances under a 1 us switch interval. Exploration over interleavings.")
 LEVEL_NOTE = "Trusted: a fresh /venv interpreter running only aomon/isolated.py is the isolation oracle; blake2b digests."
 RULE = "case = one program (object set, seeds, interleaving); non-trivial when >= 2 objects and >= 1 hostile action are interleaved; distinct by program seed"
 ASSUMPTIONS = ["same seed and parameters => same stream (numpy PCG64 is deterministic across processes)"]
